@@ -11,6 +11,7 @@ Two parts share one step function:
           node.queue.enqueue / node.read / node.peek / node.available / node.fragmentation (lower depth).
 """
 import copy
+import hashlib
 
 from .. import harness as H
 from .. import sim
@@ -327,7 +328,7 @@ def w_bfs(item, rep):
         rep.traces += 1
         rep.outcome(outcome)
         if outcome.split(":")[0] in ("enq", "reuse", "deq", "toggle") or outcome.startswith("mutate:queued"):
-            rep.nt(repr((outcome, st.model.state(), st.frag)))
+            rep.nt(hashlib.md5(repr((outcome, st.model.state(), st.frag)).encode()).hexdigest()[:16])
         ops = hist[1:] + [op]
         for sig, what in viol:
             rep.violation(sig, "%s [%s, %s]" % (what, hist[0], ", ".join(op_str(o) for o in ops)),
